@@ -22,7 +22,25 @@ ASSUMPTIONS = ["CPython zoneinfo + installed tz data define which wall times exi
 
 ENTRIES = ["datetime(name)", "datetime(Timezone)", "datetime(ZoneInfo)", "create", "local", "set", "at", "on", "replace",
            "replace(fold)", "parse", "convert", "Timezone.datetime", "naive.in_timezone", "convert(pendulum naive)", "naive.replace(tzinfo)",
-           "naive.replace(tzinfo, fold)", "local(name)", "local(TZ env)"]
+           "naive.replace(tzinfo, fold)", "local(name)", "local(TZ env)", "parse(date only)", "parse(to minutes)", "parse(to seconds)"]
+
+# a text without a time of day / seconds / fraction denotes the wall time with those fields zero: the wall time is truncated first, then spelled the short way
+PARSE_TRUNC = {"parse(date only)": 86400 * US, "parse(to minutes)": 60 * US, "parse(to seconds)": US}
+
+
+def short_text(entry, f, w):
+    y, mo, d, hh, mi, ss, _ = f
+    pick = (w // (86400 * US)) % 4
+    nd = D.date(y, mo, d)
+    if entry == "parse(date only)":
+        iy, iw, iwd = nd.isocalendar()
+        forms = ["%04d-%02d-%02d" % (y, mo, d), "%04d%02d%02d" % (y, mo, d), "%04d-%03d" % (y, nd.timetuple().tm_yday)]
+        if 1000 <= iy <= 9999:
+            forms.append("%04d-W%02d-%d" % (iy, iw, iwd))
+        return forms[pick % len(forms)]
+    if entry == "parse(to minutes)":
+        return ["%04d-%02d-%02dT%02d:%02d", "%04d-%02d-%02d %02d:%02d", "%04d%02d%02dT%02d%02d", "%04d-%02d-%02dT%02d:%02d"][pick] % (y, mo, d, hh, mi)
+    return ["%04d-%02d-%02dT%02d:%02d:%02d", "%04d-%02d-%02d %02d:%02d:%02d", "%04d%02d%02dT%02d%02d%02d", "%04d-%02d-%02dT%02d:%02d:%02d.0"][pick] % (y, mo, d, hh, mi, ss)
 
 
 def wt(w):
@@ -102,6 +120,10 @@ def build(entry, zone, w, fold, roe):
             raise Skip("parse entry restricted to 4-digit years")
         s = "%04d-%02d-%02dT%02d:%02d:%02d.%06d" % tuple(f)
         return pendulum.parse(s, tz=zone), 1
+    if entry in PARSE_TRUNC:
+        if f[0] < 1000:
+            raise Skip("parse entry restricted to 4-digit years")
+        return pendulum.parse(short_text(entry, f, w), tz=zone), 1
     if entry == "naive.in_timezone":
         return pendulum.naive(*f).in_timezone(zone), 1
     # entries that start from an existing instance: its fold is the effective fold
@@ -136,6 +158,8 @@ def build(entry, zone, w, fold, roe):
 
 
 def check_construct(entry, zone, w, fold, roe):
+    if entry in PARSE_TRUNC:
+        w -= w % PARSE_TRUNC[entry]
     kind, pre, gap = T.classify_wall(w, zone)
     try:
         got, eff = build(entry, zone, w, fold, roe)
